@@ -32,7 +32,7 @@ var pipeTaskNo atomic.Int64
 // RunStreamTask starts `script` as a stream task on db.rp of env, writes pts in
 // order through the real ingest path (TaskMaster.WritePoints), then stops the
 // task (which closes the source edge so that every node drains and exits) and
-// returns what the log() sinks saw.  Deterministic: no sleeps, no polling.
+// returns what the log() sinks saw.  Exact: waits on the ingress counter, no sleeping guess.
 // The env's Diag is cleared first; use one env per goroutine.
 func RunStreamTask(env *Env, script string, pts []imodels.Point) (*PipeResult, error) {
 	id := fmt.Sprintf("pipe%d", pipeTaskNo.Add(1))
@@ -46,6 +46,9 @@ func RunStreamTask(env *Env, script string, pts []imodels.Point) (*PipeResult, e
 			return nil, fmt.Errorf("write: %w", err)
 		}
 	}
+	// WritePoints only enqueues on the ingest edge; wait until the forking goroutine
+	// has handed every point to the task's source edge before closing it.
+	env.WaitIngress()
 	res := &PipeResult{}
 	if err := env.TM.StopTask(id); err != nil {
 		res.StopErr = err.Error()
